@@ -178,13 +178,42 @@ inductive Shape where
   | node (lets : List Name) (children : List Shape)
   deriving Repr, Inhabited
 
-partial def Shape.toString : Shape → String
-  | .node _ cs => "(" ++ " ".intercalate (cs.map Shape.toString) ++ ")"
+mutual
+/-- same nesting (the `lets` annotation is ignored) -/
+def Shape.same : Shape → Shape → Bool
+  | .node _ a, .node _ b => Shape.sameL a b
+def Shape.sameL : List Shape → List Shape → Bool
+  | [], [] => true
+  | x :: xs, y :: ys => Shape.same x y && Shape.sameL xs ys
+  | _, _ => false
+end
 
-partial def Block.shape (b : Block) : Shape := .node [] (b.children.map Block.shape)
+mutual
+def Shape.toString : Shape → String
+  | .node _ cs => "(" ++ Shape.toStringL cs ++ ")"
+def Shape.toStringL : List Shape → String
+  | [] => ""
+  | [x] => Shape.toString x
+  | x :: xs => Shape.toString x ++ " " ++ Shape.toStringL xs
+end
 
-partial def Block.subseqOk (b : Block) : Bool :=
-  b.children.all fun c => isSubseq c.context b.context && c.subseqOk
+mutual
+/-- nesting of a block tree -/
+def Block.shape : Block → Shape
+  | ⟨_, _, _, _, _, children, _⟩ => .node [] (Block.shapes children)
+def Block.shapes : List Block → List Shape
+  | [] => []
+  | b :: bs => Block.shape b :: Block.shapes bs
+end
+
+mutual
+/-- every block's stack is an order-preserving subsequence of its parent's, recursively -/
+def Block.subseqOk : Block → Bool
+  | ⟨_, _, _, _, _, children, context⟩ => Block.subseqOkL context children
+def Block.subseqOkL : List Instr → List Block → Bool
+  | _, [] => true
+  | ctx, c :: cs => isSubseq c.context ctx && Block.subseqOk c && Block.subseqOkL ctx cs
+end
 
 def IfBodyStmt.letsL : List IfBodyStmt → List Name
   | [] => []
@@ -267,7 +296,7 @@ def P_C18_shape (p : Program) (r : Result) (linksOk : Bool) : List String :=
   (if linksOk then [] else ["c18:parent-link-wrong"]) ++
   (if r.roots.length == p.fns.length then [] else ["c18:number-of-root-blocks"]) ++
   ((p.fns.zip r.roots).zipIdx.flatMap fun ((f, b), i) =>
-    (if b.shape.toString == f.sourceShape.toString then [] else [s!"c18:fn{i}:tree-shape-differs-from-source-nesting"]) ++
+    (if b.shape.same f.sourceShape then [] else [s!"c18:fn{i}:tree-shape-differs-from-source-nesting"]) ++
     (if b.subseqOk then [] else [s!"c18:fn{i}:block-stack-not-a-subsequence-of-parent"]))
 
 def P_C18_values (p : Program) (r : Result) : List String :=
